@@ -283,7 +283,11 @@ func (svc *service) stop() {
 
 	svc.conn = nil
 	svc.in = nil
+
+	// Other connections deliver into this buffer through writeMessage.
+	svc.wmu.Lock()
 	svc.out = nil
+	svc.wmu.Unlock()
 }
 
 func (svc *service) publish(msg *message.PublishMessage, onComplete OnCompleteFunc) error {
